@@ -269,19 +269,19 @@ pub fn validate(b: &[u8], budget: u64) -> (Option<Parsed>, Vec<String>) {
     }
     // clustered => first occurrences of offsets ascend with tile id
     if h.clustered == 1 {
+        let mut seen = std::collections::BTreeSet::new();
         let mut maxoff: Option<u64> = None;
         for e in p.tile_entries.iter() {
-            match maxoff {
-                Some(m) if e.offset > m => maxoff = Some(e.offset),
-                Some(m) if e.offset <= m => {
-                    // must be a back-reference to an already seen offset
-                    if !p.tile_entries.iter().take_while(|x| x.tile_id < e.tile_id).any(|x| x.offset == e.offset) {
-                        bad.push(format!("clustered flag set but offset {} at id {} is neither new-ascending nor a back-reference", e.offset, e.tile_id));
-                    }
-                }
-                None => maxoff = Some(e.offset),
-                _ => {}
+            if seen.contains(&e.offset) {
+                continue; // back-reference to content already laid out
             }
+            if let Some(m) = maxoff {
+                if e.offset <= m {
+                    bad.push(format!("clustered flag set but new content of id {} lies at offset {} before earlier content", e.tile_id, e.offset));
+                }
+            }
+            maxoff = Some(e.offset);
+            seen.insert(e.offset);
         }
     }
     (Some(p), bad)
